@@ -170,13 +170,22 @@ Definition apply_same (obs spec : list (option val) * list val) : bool :=
    key = None models a key label that is not on the opposite axis;
    multi: the key is a list/slice/mask (KEY_MULTIPLE_TYPES): the key array is 2-D and np.unique is
    called with axis= (also for a key selecting a single row/column: type_blocks.py:797-803);
-   obj: the extracted key array has dtype object. *)
-Definition M_frame_group_api (axis : Z) (key : option keyspec) (multi cdepth1 idepth1 obj : bool)
+   obj: the extracted key array has dtype object;
+   go: the receiver is a FrameGO.  On the sort path with axis 1 the groups are built as
+   `Frame(..., columns=frame_sorted.columns[slc], own_columns=True)` (frame.py:4364-4370): for a FrameGO
+   that is an IndexGO handed to a static Frame as its own columns -> ErrorInitFrame at the first group
+   (a finding: the model follows the code). *)
+Definition M_frame_group_api (axis : Z) (key : option keyspec) (multi cdepth1 idepth1 obj go : bool)
            (rows : list row) : res (list (option val * list row)) :=
   if negb ((axis =? 0) || (axis =? 1)) then Err "AxisInvalid"
   else match key with
        | None => Err "KeyError"
-       | Some ks => Ok (M_frame_group cdepth1 idepth1 multi obj multi ks rows)
+       | Some ks =>
+           match rows, choose_path cdepth1 idepth1 multi obj with
+           | _ :: _, PathSort => if go && (axis =? 1) then Err "ErrorInitFrame"
+                                 else Ok (M_frame_group cdepth1 idepth1 multi obj multi ks rows)
+           | _, _ => Ok (M_frame_group cdepth1 idepth1 multi obj multi ks rows)
+           end
        end.
 
 Definition S_frame_group_api (axis : Z) (key : option keyspec) (rows : list row) : res (list (option val * list row)) :=
@@ -234,3 +243,8 @@ Definition M_kernel (obj with_axis : bool) (ks : list val) : list val * list nat
 
 Definition kernel_eqb (a b : list val * list nat) : bool :=
   list_eqb (fun x y => val_eqb (canon x) (canon y)) (fst a) (fst b) && list_eqb Nat.eqb (snd a) (snd b).
+
+(* values-only window iterators (Frame/Series._axis_window: `(x for _, x in self._axis_window_items(...))`):
+   the windows of the items, in order, labels dropped *)
+Definition wvalues (r : res (list (val * list row))) : res (list (list row)) := res_map (map (@snd val (list row))) r.
+Definition wvres_eqb (a b : res (list (list row))) : bool := res_eqb (list_eqb (list_eqb row_eqb)) a b.
